@@ -71,20 +71,25 @@ namespace Dune
                   pybind11::format_descriptor< T >::value, 1, { size }, { sizeof( T ) } )
                 ),
           dataPtr_( static_cast< value_type * >( array_.request(true).ptr ) ),
-          size_(size)
+          size_(size),
+          stride_( 1 )
       {}
 
       NumPyVector ( pybind11::buffer buf )
         : array_( buf ),
           dataPtr_( nullptr ),
-          size_( 0 )
+          size_( 0 ),
+          stride_( 1 )
       {
         pybind11::buffer_info info = buf.request();
         if (info.ndim != 1)
           DUNE_THROW( InvalidStateException, "NumPyVector can only be created from one-dimensional array" );
         size_ = info.shape[0];
 
-        dataPtr_ = static_cast< value_type * >( array_.request(true).ptr );
+        // the wrapped array need not be contiguous (e.g. a[::2], a[::-1]): entry i lives i strides after the first
+        pybind11::buffer_info arrayInfo = array_.request(true);
+        dataPtr_ = static_cast< value_type * >( arrayInfo.ptr );
+        stride_ = arrayInfo.strides[0] / static_cast< ssize_t >( sizeof( value_type ) );
       }
 
       NumPyVector ( const This &other ) = delete;
@@ -99,19 +104,19 @@ namespace Dune
 
       const value_type &operator[] ( size_type index ) const
       {
-        return data()[ index ];
+        return data()[ static_cast< ssize_t >( index ) * stride_ ];
       }
       value_type &operator[] ( size_type index )
       {
-        return data()[ index ];
+        return data()[ static_cast< ssize_t >( index ) * stride_ ];
       }
       value_type &vec_access ( size_type index )
       {
-        return data()[ index ];
+        return data()[ static_cast< ssize_t >( index ) * stride_ ];
       }
       const value_type &vec_access ( size_type index ) const
       {
-        return data()[ index ];
+        return data()[ static_cast< ssize_t >( index ) * stride_ ];
       }
 
       inline const value_type *data () const
@@ -146,6 +151,7 @@ namespace Dune
       pybind11::array_t< T > array_;
       value_type* dataPtr_;
       size_type size_;
+      ssize_t stride_;
     };
 
   } // namespace Python
